@@ -256,6 +256,8 @@ class Value(cssutils.util._NewBase):
         if cssText:
             self.cssText = cssText
 
+        self._readonly = readonly
+
     def __repr__(self):
         return f"cssutils.css.{self.__class__.__name__}({self.cssText!r})"
 
